@@ -152,3 +152,8 @@ package xstar
 //@ func (*socket).SendMsg
 //@   loop 1 ensures called_since("loop1:head", "Clone") && sel("select#1") != -2
 //@   before select#1 assert selsends(p.sendq) && held(s.Mutex)
+
+// ---- round 10 (C10 "later calls fail with a closed error"): Send on a closed socket ----
+//@ func (*socket).SendMsg
+//@   ghost wasclosed = s.closed at call:Lock#1
+//@   ensures wasclosed ==> result == protocol.ErrClosed
